@@ -489,3 +489,62 @@ pub proof fn lemma_lid_variant_order_invariant(s: Seq<Seq<u8>>, t: Seq<Seq<u8>>,
     if has_script(s) { assert(s[1] == s.take(p)[1] && t[1] == t.take(p)[1]); }
     if has_region(s) { let q = region_pos(s); assert(s[q] == s.take(p)[q] && t[q] == t.take(p)[q]); }
 }
+
+/// a subtag that cannot continue a language identifier (not a script, region or variant)
+pub open spec fn lid_stopper(s: Seq<u8>) -> bool { !is_script(s) && !is_region(s) && !is_variant_st(s) }
+/// L-RT with a suffix (the extension part of a locale, or the fields after a tlang): the subtags of a well-formed view,
+/// followed by something that cannot continue a language identifier, are consumed exactly and prescribe that view
+pub proof fn lemma_lid_roundtrip_suffix(v: LidView, rest: Seq<Seq<u8>>)
+    requires lid_view_ok(v), rest.len() == 0 || lid_stopper(rest[0]),
+    ensures
+        is_language((lid_toks(v) + rest)[0]),
+        lid_end(lid_toks(v) + rest) == lid_toks(v).len(),
+        lid_expected(lid_toks(v) + rest, v),
+{
+    let t0 = lid_toks(v);
+    let t = t0 + rest;
+    let h = lang_text(v.lang);
+    lemma_und_props();
+    let ns: int = if v.script is Some { 1 } else { 0 };
+    let nr: int = if v.region is Some { 1 } else { 0 };
+    let n = 1 + ns + nr + v.variants.len();
+    assert(t0.len() == n);
+    assert(t[0] == h);
+    if v.script is Some { assert(t[1] == v.script->0); }
+    if v.region is Some { assert(t[1 + ns] == v.region->0); }
+    assert forall|j: int| 0 <= j < v.variants.len() implies #[trigger] t[1 + ns + nr + j] == v.variants[j] by {}
+    if rest.len() > 0 { assert(t[n] == rest[0]); }
+    if v.script is None && t.len() > 1 {
+        lemma_classes_disjoint(t[1]);
+        if v.region is Some { assert(is_region(t[1])); }
+        else if v.variants.len() > 0 { assert(t[1] == v.variants[0]); assert(is_variant_st(t[1])); }
+        else { assert(t[1] == rest[0]); }
+    }
+    assert(has_script(t) == (v.script is Some));
+    assert(region_pos(t) == 1 + ns);
+    if v.region is None && t.len() > 1 + ns {
+        lemma_classes_disjoint(t[1 + ns]);
+        if v.variants.len() > 0 { assert(t[1 + ns] == v.variants[0]); assert(is_variant_st(t[1 + ns])); }
+        else { assert(t[1 + ns] == rest[0]); }
+    }
+    assert(has_region(t) == (v.region is Some));
+    assert(var_pos(t) == 1 + ns + nr);
+    assert forall|i: int| var_pos(t) <= i < n implies is_variant_st(#[trigger] t[i]) by {
+        assert(t[i] == v.variants[i - var_pos(t)]);
+    }
+    lemma_var_run(t, var_pos(t), n);
+    assert(lid_end(t) == n);
+    assert(lang_view(h) == v.lang) by { if v.lang is Some { assert(lower(h) == h); } }
+    assert forall|x: Seq<u8>| #[trigger] v.variants.contains(x) <==> lid_var_member(t, x) by {
+        if v.variants.contains(x) {
+            let j = choose|j: int| 0 <= j < v.variants.len() && v.variants[j] == x;
+            assert(t[var_pos(t) + j] == x);
+            assert(lower(t[var_pos(t) + j]) == x);
+        }
+        if lid_var_member(t, x) {
+            let i = choose|i: int| var_pos(t) <= i < lid_end(t) && x == lower(#[trigger] t[i]);
+            assert(t[i] == v.variants[i - var_pos(t)]);
+            assert(v.variants[i - var_pos(t)] == x);
+        }
+    }
+}
